@@ -34,6 +34,7 @@ structure State where
   soil : List Int := []          -- soil cohorts at the observed cell
   treats : List (TreatSpec × TreatApp × List Rat) := []   -- Treatments container (after clear_after_step)
   soilCells : List (List Int) := []   -- soil cohorts per cell after the previous model step
+  stepStart : List Cell := []         -- host cells when the current model step began
 deriving Inhabited
 
 def intList? (s : String) : Option (List Int) :=
@@ -233,6 +234,44 @@ def trace? (s : String) : Option (List (ActionKind × Int)) :=
     | [n, i] => do let k ← kindOfName n; let i ← parseInt? i; some (k, i)
     | _ => none
 
+/-- `hp.plan <step> => <status> <trace>`: the observed action trace against the plan (C09). -/
+def planVerdict (st : State) (stepTok : String) (obsToks : List String) : State × String :=
+    match parseNat? stepTok, obsToks with
+    | some step, [status, tr] =>
+      match trace? tr with
+      | none => (st, "BADLINE trace")
+      | some observed =>
+        let expected := plan st.cfg step
+        let expKinds := expected.map (·.1)
+        let obsKinds := observed.map (·.1)
+        if status ≠ "ok" then
+          -- the step threw: mortality through the raster entry point is the open finding F18;
+          -- mortality failing after a rounding-inconsistent treatment is the downstream face of F20
+          let mortNext := expKinds.contains .mortality && !(obsKinds.contains .mortality) &&
+            obsKinds == expKinds.takeWhile (· != .mortality)
+          let rateNext := expKinds.contains .spreadRate && !(obsKinds.contains .spreadRate) &&
+            obsKinds == expKinds.takeWhile (· != .spreadRate)
+          if rateNext && st.rasterEntry && status == "err:out_of_range" then
+            (st, s!"KNOWN C09 F26 step={step} raster entry point with use_spreadrates threw {status} at the spread-rate measurement")
+          else if mortNext && st.rasterEntry && status == "err:invalid_argument" then
+            (st, s!"KNOWN C09 F18 step={step} raster entry point with use_mortality threw {status}")
+          else if mortNext && st.tainted && status == "err:runtime_error" then
+            (st, s!"KNOWN C03 F20 step={step} mortality failed after a treatment whose per-cohort rounding broke i = sum(mort)")
+          else (st, s!"PROPFAIL C09 step_threw step={step} {status} trace={tr}")
+        else
+          -- C09: exactly the enabled and scheduled actions, in the documented order, with the index of the firing
+          let orderOK := obsKinds == documentedOrder.filter (obsKinds.contains ·) && obsKinds.eraseDups == obsKinds
+          let iffOK := documentedOrder.all fun k => obsKinds.contains k == st.cfg.runs step k
+          let idxOK := observed.all fun (k, i) => match st.cfg.inputIndex step k with | some j => i == (j : Int) | none => true
+          let treatDue := st.cfg.useTreatments && st.treats.any fun t => t.1.eventAt step != .nothing
+          if treatDue && !(obsKinds.contains .treatments) then (st, s!"PROPFAIL C10 treatment_not_applied_at_its_step step={step} trace={tr}")
+          else if !orderOK then (st, s!"PROPFAIL C09 order step={step} trace={tr}")
+          else if !iffOK then (st, s!"PROPFAIL C09 enabled_and_scheduled step={step} trace={tr} expected={expKinds.map ActionKind.name}")
+          else if !idxOK then (st, s!"PROPFAIL C09 input_index step={step} trace={tr}")
+          else if obsKinds != expKinds then (st, s!"MISMATCH hp.plan model={expKinds.map ActionKind.name}")
+          else (st, "ok")
+    | _, _ => (st, "BADLINE")
+
 def handle (st : State) (cmd : String) (inp obsToks : List String) : State × String :=
   match cmd, inp with
   | "hp.begin", [mt, lat, rows, cols] =>
@@ -244,7 +283,7 @@ def handle (st : State) (cmd : String) (inp obsToks : List String) : State × St
     | _, _, _, _ => (st, "BADLINE")
   | "hp.state", [] =>
     match obs? obsToks with
-    | some o => finish st o "ok"
+    | some o => let (st', v) := finish st o "ok"; ({ st' with stepStart := o.cells }, v)
     | none => (st, "BADLINE")
   -- Treatments container: hp.treatlist clear_at kind:app:start:end,coef,coef.. ...
   | "hp.treatlist", clearTok :: items =>
@@ -353,41 +392,21 @@ def handle (st : State) (cmd : String) (inp obsToks : List String) : State × St
       ({ st with cfg := cfg, rasterEntry := entry == "rasters" }, "ok")
     | _, _, _, _, _, _, _, _, _, _, _ => (st, "BADLINE cfg")
   | "hp.plan", [stepTok] =>
-    match parseNat? stepTok, obsToks with
-    | some step, [status, tr] =>
-      match trace? tr with
-      | none => (st, "BADLINE trace")
-      | some observed =>
-        let expected := plan st.cfg step
-        let expKinds := expected.map (·.1)
-        let obsKinds := observed.map (·.1)
-        if status ≠ "ok" then
-          -- the step threw: mortality through the raster entry point is the open finding F18;
-          -- mortality failing after a rounding-inconsistent treatment is the downstream face of F20
-          let mortNext := expKinds.contains .mortality && !(obsKinds.contains .mortality) &&
-            obsKinds == expKinds.takeWhile (· != .mortality)
-          let rateNext := expKinds.contains .spreadRate && !(obsKinds.contains .spreadRate) &&
-            obsKinds == expKinds.takeWhile (· != .spreadRate)
-          if rateNext && st.rasterEntry && status == "err:out_of_range" then
-            (st, s!"KNOWN C09 F26 step={step} raster entry point with use_spreadrates threw {status} at the spread-rate measurement")
-          else if mortNext && st.rasterEntry && status == "err:invalid_argument" then
-            (st, s!"KNOWN C09 F18 step={step} raster entry point with use_mortality threw {status}")
-          else if mortNext && st.tainted && status == "err:runtime_error" then
-            (st, s!"KNOWN C03 F20 step={step} mortality failed after a treatment whose per-cohort rounding broke i = sum(mort)")
-          else (st, s!"PROPFAIL C09 step_threw step={step} {status} trace={tr}")
-        else
-          -- C09: exactly the enabled and scheduled actions, in the documented order, with the index of the firing
-          let orderOK := obsKinds == documentedOrder.filter (obsKinds.contains ·) && obsKinds.eraseDups == obsKinds
-          let iffOK := documentedOrder.all fun k => obsKinds.contains k == st.cfg.runs step k
-          let idxOK := observed.all fun (k, i) => match st.cfg.inputIndex step k with | some j => i == (j : Int) | none => true
-          let treatDue := st.cfg.useTreatments && st.treats.any fun t => t.1.eventAt step != .nothing
-          if treatDue && !(obsKinds.contains .treatments) then (st, s!"PROPFAIL C10 treatment_not_applied_at_its_step step={step} trace={tr}")
-          else if !orderOK then (st, s!"PROPFAIL C09 order step={step} trace={tr}")
-          else if !iffOK then (st, s!"PROPFAIL C09 enabled_and_scheduled step={step} trace={tr} expected={expKinds.map ActionKind.name}")
-          else if !idxOK then (st, s!"PROPFAIL C09 input_index step={step} trace={tr}")
-          else if obsKinds != expKinds then (st, s!"MISMATCH hp.plan model={expKinds.map ActionKind.name}")
-          else (st, "ok")
-    | _, _ => (st, "BADLINE")
+    -- C05, state-based and independent of the trace: in a step that is not a spread step no exposed
+    -- cohort ages and nothing matures (the step began with `stepStart`, it ends with `cells`)
+    let offSeason : Option String :=
+      match parseNat? stepTok, obsToks with
+      | some step, "ok" :: _ =>
+        if st.mt == .sei && !(schedAt st.cfg.spreadSched step) && !st.stepStart.isEmpty && !(offSeasonFrame st.stepStart st.cells) then
+          let k := ((List.range st.cells.length).find? fun k => !(exposedFrozen st.stepStart[k]! st.cells[k]!)).getD 0
+          some s!"PROPFAIL C05 cohorts_aged_outside_spread_step step={step} cell={k} start={showCell st.stepStart[k]!} end={showCell st.cells[k]!}"
+        else none
+      | _, _ => none
+    let (stp, vp) := planVerdict st stepTok obsToks
+    ({ stp with stepStart := stp.cells },
+     match offSeason with
+     | none => vp
+     | some v => if vp == "ok" then v else vp ++ " ;; " ++ v)
   | _, _ =>
     match obs? obsToks with
     | none => (st, "BADLINE obs")
